@@ -182,6 +182,19 @@ enum Twin {
 }
 
 impl Twin {
+    /// the limits the library itself reports for the installed timeline (f32)
+    fn duration(&self) -> f32 {
+        match self {
+            Twin::One(x) => x.duration(),
+            Twin::Many(x) => x.duration(),
+        }
+    }
+    fn delay(&self) -> f32 {
+        match self {
+            Twin::One(x) => x.delay(),
+            Twin::Many(x) => x.delay(),
+        }
+    }
     fn update(&self, v: &mut A, t: f32) {
         match self {
             Twin::One(x) => x.update(v, t),
@@ -230,6 +243,26 @@ impl TlInForce {
     fn total_exact(&self) -> bool {
         self.parts().all(|d| exact32(d.timing.total()) && exact32(d.timing.cycle as f64 * d.timing.repeat.cycles().unwrap_or(1) as f64))
     }
+    /// An evaluation of the installed timeline at `t` (known to within `extra` s) judged by the f64
+    /// model instead of the library twin: animated properties per C01/C10 (last component animating
+    /// the property wins; before the delay that is exactly the substituted start value or the 0 %
+    /// value), every other property as it was.
+    fn model_check(&self, comp0: &A, comp1: &A, t: f64, extra: f64) -> Result<(), String> {
+        for i in 0..NPROP {
+            match self.models.iter().rev().find(|m| m.animates(i)) {
+                Some(m) => {
+                    let start = self.start.as_ref().map(|s| s.get(i));
+                    m.judge_window(i, t, extra, start, comp1.get(i)).map_err(|e| format!("property {} after an evaluation at {t} s: {e}", PROP_NAMES[i]))?;
+                }
+                None => {
+                    if comp1.get(i) != comp0.get(i) {
+                        return Err(format!("property {} is not animated by the installed timeline but changed {} -> {}", PROP_NAMES[i], comp0.get(i), comp1.get(i)));
+                    }
+                }
+            }
+        }
+        Ok(())
+    }
     /// terminal value of property i: that of the last component animating it
     fn terminal(&self, i: usize) -> Option<f64> {
         self.models.iter().rev().find_map(|m| m.terminal(i))
@@ -273,7 +306,18 @@ fn judge_animator_frame_t(tl: Option<&TlInForce>, enabled: bool, delta: Duration
     let total = tl.total();
     let delay = tl.delay();
     let pos_exact = pos0.as_nanos() % 1_953_125 == 0 && exact32(s0);
-    let decide = |limit: f64, limit_exact: bool| -> (bool, bool) {
+    // Outside the exact domain the only legitimate slack is (a) how the Duration position is converted
+    // to f32 seconds - the correctly rounded value, `as_secs_f32`, or a neighbour: +-1 ulp - and (b) the
+    // f32 rounding of the limit itself, for which the value the timeline reports is taken (it is judged
+    // against the model by C03/C12; here it only has to be within 1.5 ulp of the model's, otherwise the
+    // model's own rounding is used). The state must be "reached" when every candidate position is >= the
+    // limit and must not be when none is.
+    let cands: Vec<f32> = {
+        let base = pos0.as_secs_f64() as f32;
+        vec![base, pos0.as_secs_f32(), step32(base, -1), step32(base, 1)]
+    };
+    let (lo, hi) = cands.iter().fold((f32::INFINITY, f32::NEG_INFINITY), |(l, h), c| (l.min(*c), h.max(*c)));
+    let decide = |limit: f64, limit_exact: bool, reported: f32| -> (bool, bool) {
         // (reached, ambiguous)
         if limit.is_infinite() {
             return (false, false);
@@ -281,21 +325,19 @@ fn judge_animator_frame_t(tl: Option<&TlInForce>, enabled: bool, delta: Duration
         if pos_exact && limit_exact {
             return (s0 >= limit, false);
         }
-        let band = 2.0 * (ulp32(limit as f32) as f64 + ulp32(s0 as f32) as f64) + 2e-9;
-        if (s0 - limit).abs() <= band {
-            (s0 >= limit, true)
-        } else {
-            (s0 >= limit, false)
-        }
+        let lim32 = if (reported as f64 - limit).abs() <= 1.5 * ulp32(limit as f32) as f64 { reported } else { limit as f32 };
+        let certain = lo >= lim32;
+        let possible = hi >= lim32;
+        (certain, certain != possible)
     };
     let total_exact = tl.total_exact();
-    let (ended, ended_amb) = decide(total, total_exact);
+    let (ended, ended_amb) = decide(total, total_exact, tl.twin.duration());
     let (started, started_amb) = if st0 == AnimationState::Playing {
         // states only move forward: a Playing animator stays Playing (e.g. after set_timeline
         // installed a timeline with a longer delay) until it ends
         (true, false)
     } else {
-        decide(delay, true)
+        decide(delay, true, tl.twin.delay())
     };
     facts.exact_end_decision = pos_exact && total_exact && total.is_finite();
     facts.near_band = ended_amb || started_amb;
@@ -374,8 +416,15 @@ fn judge_animator_frame_t(tl: Option<&TlInForce>, enabled: bool, delta: Duration
                 st0, st1, pos0, comp1, v, comp0
             ));
         }
-    } else if !comp1.same(comp0) && !eval_matches(comp1) {
-        return Err(format!("state {:?} -> {:?}: component changed to {:?}, which is neither its previous value {:?} nor the timeline at the frame's start position {:?}", st0, st1, comp1, comp0, pos0));
+    } else if !comp1.same(comp0) {
+        if !eval_matches(comp1) {
+            return Err(format!("state {:?} -> {:?}: component changed to {:?}, which is neither its previous value {:?} nor the timeline at the frame's start position {:?}", st0, st1, comp1, comp0, pos0));
+        }
+        // An implementation may evaluate in a frame it enters as None / Waiting (the pristine one does
+        // not), but then the values must be what the timeline *should* give there - before the delay
+        // that is the substituted start value / the 0 % value - not merely what the library's own
+        // evaluation returns (a defect in the evaluation before the delay would otherwise be invisible).
+        tl.model_check(comp0, comp1, s0, ulp32(s0 as f32) as f64).map_err(|e| format!("state {:?} -> {:?}, component evaluated although not Playing: {e} (component {:?} -> {:?})", st0, st1, comp0, comp1))?;
     }
     // terminal values when Ended is (newly) reported: model values, exact domain
     if entered_ended && !ended_amb {
@@ -411,7 +460,7 @@ pub enum BOp {
     /// entity has no target component still keeps time, changes state and announces it
     Target(bool),
     /// a frame whose length brings the position to the installed timeline's total duration plus
-    /// {-2, -1, 0, 1, 2, 40, 400, 900, 1500} ns (an ordinary 1/512 s frame when that is not ahead)
+    /// {-2, -1, 0, 1, 2, 40, 400, 900, 1500, -30, -60, -100, -120} ns (an ordinary 1/512 s frame when that is not ahead)
     FrameToEnd(u8),
     /// the application writes `timeline_position` itself (documented: "fine-grained control of
     /// animation frames"): 0, the delay, the total -1/512 s, the total, the total + 1 s, 1/3 s
@@ -458,7 +507,7 @@ fn c18_strategy() -> impl Strategy<Value = C18Case> {
         1 => any::<bool>().prop_map(BOp::SetTimeline),
         1 => (0u8..5).prop_map(BOp::Clock),
         1 => prop::bool::weighted(0.6).prop_map(BOp::Target),
-        2 => (0u8..9).prop_map(BOp::FrameToEnd),
+        2 => (0u8..13).prop_map(BOp::FrameToEnd),
         1 => (0u8..6).prop_map(BOp::Seek),
     ];
     (
@@ -595,7 +644,7 @@ fn c18_judge(c: &C18Case, obs: &mut Obs) -> Result<(), String> {
                 let dns = match *op {
                     BOp::Frame(sel) => DELTAS_NS[sel as usize % DELTAS_NS.len()],
                     BOp::FrameToEnd(sel) => {
-                        const OFF: [i64; 9] = [-2, -1, 0, 1, 2, 40, 400, 900, 1500];
+                        const OFF: [i64; 13] = [-2, -1, 0, 1, 2, 40, 400, 900, 1500, -30, -60, -100, -120];
                         let total = cur.as_ref().map(|t| t.total()).unwrap_or(f64::INFINITY);
                         let target = (total * 1e9).round() + OFF[sel as usize % OFF.len()] as f64;
                         let ahead = target - pos0.as_nanos() as f64;
@@ -672,7 +721,7 @@ fn c18_judge(c: &C18Case, obs: &mut Obs) -> Result<(), String> {
 }
 
 fn c18(run: &mut Run) {
-    run.assume("single-threaded executor, one App per case, Time advanced by hand (no TimePlugin); exact domain for the Ended/Waiting decisions when the position is a multiple of 2^-9 s representable in f32 and the total duration is representable, a band of 2(ulp(limit)+ulp(pos)) otherwise");
+    run.assume("single-threaded executor, one App per case, Time advanced by hand (no TimePlugin); exact domain for the Ended/Waiting decisions when the position is a multiple of 2^-9 s representable in f32 and the total duration is representable, otherwise the decision is free only while the f32 candidates for the position in seconds (correctly rounded, as_secs_f32, +-1 ulp) straddle the limit the timeline reports");
     run.assume("in a frame that the animator does not enter as Playing and does not end, the component may either stay as it is or be evaluated at the frame's start position (the property does not say)");
     let cases = run.tier.pick(50_000, 2_000_000);
     run.prop(
@@ -989,6 +1038,9 @@ fn c19_judge(c: &C19Case, obs: &mut Obs) -> Result<(), String> {
                             if !v.same(&comp1) {
                                 return Err(format!("component jumped in the frame of the key change to {:?}: {:?} -> {:?}", KEYS[mkey as usize], comp0, comp1));
                             }
+                            // ... and by the model: position 0 of a timeline blended from the current
+                            // values IS the current values (whatever its delay)
+                            tl_ref.unwrap().model_check(&comp0, &comp1, 0.0, 0.0).map_err(|e| format!("component jumped in the frame of the key change to {:?}: {e} ({:?} -> {:?})", KEYS[mkey as usize], comp0, comp1))?;
                         }
                         judge_animator_frame(tl_ref, en0, delta, st_in, pos_in, &comp0, st1, pos1, &comp1).map(|_| ())?;
                         // events: one per animator state change on this entity (a restart resets our
